@@ -237,6 +237,78 @@ def job_two_theta(job, seed):
     return {'obligations': obs, 'candidates': cands, 'paths': 1}
 
 
+def job_stability(job, seed):
+    """First-order absolute forward-error analysis of the recorded operation sequence of the REAL two_theta on the
+    planar unit-beam family b1 = (L1,0,0), b2 = L2 (cos a, sin a, 0), a in (0, pi) via t = tan(a/2) >= 0:
+    accumulated error <= 24 u (about 2.7e-15 rad); an acos(dot) and a sqrt(2-2c) formulation are refuted."""
+    scale = job
+    import numpy as np
+    from symex import core as C
+    from symex.errs import EV
+    from symsc import variable as V
+    from .symutil import fresh_run
+
+    from symex import loader
+    sc = loader.install_shim()
+    bl = loader.load('conversion.beamline')
+    fresh_run()
+    obs, cands = [], []
+    case = {'kind': 'two_theta', 'what': 'stability'}
+    t = C.sym_var('t', sign='0+')
+    with C.oracle():
+        c = (1 - t * t) / (1 + t * t)
+        s = 2 * t / (1 + t * t)
+    L1 = L2 = C.R.lift(1)
+    if scale:
+        L1, L2 = C.sym_var('len1', sign='+'), C.sym_var('len2', sign='+')
+
+    def vecv(comps):
+        a = np.empty((3,), dtype=object)
+        for i, x in enumerate(comps):
+            a[i] = EV(x)
+        return V.Variable(_arr=a, dims=(), unit=V.parse_unit('m'), dtype=V.DType.vector3)
+
+    b1 = vecv([L1, 0, 0])
+    b2 = vecv([L2 * c, L2 * s, 0])
+    tag = f'stability[{"scaled" if scale else "unit"} beams]'
+    paths = C.explore(lambda: bl.two_theta(incident_beam=b1, scattered_beam=b2))
+    p = paths[0]
+    if p.exc is not None or p.inconclusive or len(paths) != 1:
+        obs.append({'name': f'{tag}:error analysis runs', 'status': 'inconclusive', 'detail': str(p.inconclusive or repr(p.exc))[:200], 't': 0})
+        return {'obligations': obs, 'candidates': cands, 'paths': len(paths)}
+    r = p.value.value
+    if not isinstance(r, EV):
+        obs.append({'name': f'{tag}:error analysis runs', 'status': 'inconclusive', 'detail': 'result carries no error term', 't': 0})
+        return {'obligations': obs, 'candidates': cands, 'paths': 1}
+    ob = C.prove(f'{tag}:accumulated absolute rounding error of two_theta <= 24 u for every angle in (0, pi)', r.k <= 24, timeout_ms=120000)
+    obs.append(ob_dict(ob))
+    if ob.status == 'violated':
+        cands.append(('C03:two_theta:stability', {**case, 'model': {k_: float(v) for k_, v in (ob.model or {}).items()}}, 'forward error unbounded / above 24 u'))
+    if not scale:
+        # canaries: numerically naive but algebraically identical formulations must be refuted
+        def acos_form():
+            n1 = b1 / sc.norm(b1)
+            n2 = b2 / sc.norm(b2)
+            return sc.acos(sc.dot(n1, n2))
+
+        def sqrt_form():
+            n1 = b1 / sc.norm(b1)
+            n2 = b2 / sc.norm(b2)
+            d = sc.dot(n1, n2)
+            y = sc.sqrt(2 - 2 * d)
+            x = sc.sqrt(2 + 2 * d)
+            return 2 * sc.atan2(y=y, x=x)
+
+        for nm, f in (('acos(dot)', acos_form), ('2 atan2(sqrt(2-2c), sqrt(2+2c))', sqrt_form)):
+            q = C.explore(f)[0]
+            if q.value is None:
+                obs.append({'name': f'{tag}:canary {nm}', 'status': 'inconclusive', 'detail': str(q.inconclusive or repr(q.exc))[:200], 't': 0})
+                continue
+            ob = C.prove('canary', q.value.value.k <= 24, timeout_ms=60000)
+            obs.append({'name': f'{tag}:canary: {nm} has unbounded forward error (must be refuted)', 'status': 'discharged' if ob.status == 'violated' else 'inconclusive', 't': ob.t})
+    return {'obligations': obs, 'candidates': cands, 'paths': 1}
+
+
 def run(chk):
     from symex import loader
 
@@ -247,12 +319,13 @@ def run(chk):
                                      bl.total_straight_beam_length_no_scatter, bl.two_theta, gb.beamline])
     run_jobs(chk, job_euclid, [(True, None), (False, None), (True, 2), (False, 2)])
     run_jobs(chk, job_two_theta, ['definition', 'units', 'symmetry', 'rescale', 'rotation', 'stability-canary'])
+    run_jobs(chk, job_stability, [False, True])
     chk.bounds = {'arrays': 'scalar and 2 detector pixels', 'values': 'all real position vectors with distinct positions; symbolic length unit'}
     chk.stubs = ['scipp -> symsc (vector arithmetic, norm, atan2(out=), in-place ops with buffer write log)']
     chk.axioms = ['atan2: range/quadrant axioms; cos(2 atan2(y,x)) = (x^2-y^2)/(x^2+y^2)', 'sin^2+cos^2=1',
                   'rotation invariance via the abstraction lemma (Ru).(Rv)=u^T(R^T R)v plus a concrete one-parameter rotation family']
-    chk.assumptions = ['numerical stability: only the conditioning of the final atan2 w.r.t. its arguments is solver-checked; '
-                       'full forward-error analysis and float32 are outside the claim',
+    chk.assumptions = ['numerical stability: first-order absolute forward-error analysis of the recorded operation sequence on the planar beam family '
+                       '(any beam lengths, any angle in (0, pi)); general position and float32 are outside the claim',
                        'translation invariance is structural: beams are differences of positions (euclid obligations)']
 
 
